@@ -167,8 +167,10 @@ pub fn generate(rng: &mut Rng, fault_free: bool) -> K17 {
         let mut t = from;
         let mut odd = false;
         let mut ctr = 0u32;
-        // some aircraft sit exactly on the receiver (distance 0)
+        // some aircraft sit exactly on the receiver (distance 0); some jump far away and back
+        // (rejected fixes, cleared records, new distance maxima) while the operator looks at Stats
         let on_top = rng.chance(0.1);
+        let jumper = !on_top && rng.chance(0.25);
         let lat = if on_top { RX.0 } else { (RX.0 + rng.f64_range(-0.8, 0.8)).clamp(-89.9, 89.9) };
         let lon = if on_top { RX.1 } else { RX.1 + rng.f64_range(-0.8, 0.8) };
         while t < to && lines.len() < if deep { 400 } else { 150 } {
@@ -177,7 +179,8 @@ pub fn generate(rng: &mut Rng, fault_free: bool) -> K17 {
                 0 => wire::me_identification(4, 0, &format!("AC{a}X{}", ctr % 10)),
                 1 | 2 => {
                     odd = !odd;
-                    let (yz, xz) = wire::cpr_encode(if on_top { lat } else { (lat + 0.0005 * ctr as f64).clamp(-89.95, 89.95) }, lon, odd);
+                    let jump = if jumper && (ctr / 6) % 2 == 1 { *rng.pick(&[1.5, 2.5, -2.0, 4.0]) } else { 0.0 };
+                    let (yz, xz) = wire::cpr_encode(if on_top { lat } else { (lat + 0.0005 * ctr as f64).clamp(-89.95, 89.95) }, lon + jump, odd);
                     wire::me_airborne_position(11, 0, 0, wire::ac12_q(10_000 + 1000 * a as i32), false, odd, yz, xz)
                 }
                 // every velocity report with its own random vector: headings all round the compass
